@@ -584,3 +584,7 @@ M("C02", "fetching the interaction matrix also stores it", "kill",
   [(IMPL, "            matrix = matrix[self.well_prepared_qubits_filter, :][\n                :, self.well_prepared_qubits_filter\n            ]\n\n        return matrix", "            matrix = matrix[self.well_prepared_qubits_filter, :][\n                :, self.well_prepared_qubits_filter\n            ]\n\n        self.current_interaction_matrix = matrix\n        return matrix")], "INTERACT-refresh")
 M("C18", "jump search starts only below a margin", "kill",
   [(IMPL, "            if self.norm_gap_before_jump < 0:", "            if self.norm_gap_before_jump < -self.config.precision:")], "JUMP-path")
+M("C17", "jump weights from conj(L†L)", "kill",
+  [(IMPL, "        self.aggregated_lindblad_ops = stacked.conj().transpose(1, 2) @ stacked", "        self.aggregated_lindblad_ops = torch.einsum(\"kij,kil->kjl\", stacked, stacked.conj())")], "ROLE-noise")
+M("C17", "twin: L†L written as an einsum", "twin",
+  [(IMPL, "        self.aggregated_lindblad_ops = stacked.conj().transpose(1, 2) @ stacked", "        self.aggregated_lindblad_ops = torch.einsum(\"kij,kil->kjl\", stacked.conj(), stacked)")])
